@@ -62,7 +62,7 @@ class SubCheck:
     run_unit: Callable[[Any, "Collector"], None] | None = None
     exhaustive: bool = False
     shards: int | None = None  # override number of hypothesis shards
-    max_buckets: int = 3
+    max_buckets: int = 2
 
 
 def canon(case: Any) -> str:
@@ -184,6 +184,10 @@ def _hyp_worker(args) -> dict:
 
         def body(case):
             state["n"] += 1
+            if state["target"] is not None and time.time() > state["deadline"]:
+                # shrink budget spent: only the best case so far keeps failing, the shrinker converges at once
+                if canon(case) != canon(col.failures[state["target"]]["case"]):
+                    return
             try:
                 out = run_case(sub, case)
             except Violation as v:
@@ -342,7 +346,7 @@ def main(mod, argv: list[str] | None = None) -> int:
         "known": [],
         "harness_errors": [],
     }
-    shrink_budget = 45 if ns.tier == "quick" else 240
+    shrink_budget = 20 if ns.tier == "quick" else 180
     violations: list[tuple[str, str, dict]] = []
     known_hit: dict[str, dict] = {}
 
@@ -500,7 +504,7 @@ def main(mod, argv: list[str] | None = None) -> int:
         "wall_s": round(wall, 2),
         "violations": len(total["violations"]),
     }
-    if not ns.only:
+    if not ns.only and not os.environ.get("VERIF_NO_EVIDENCE"):
         os.makedirs(os.path.join(VERIF, "evidence"), exist_ok=True)
         with open(os.path.join(VERIF, "evidence", f"{prop}.json"), "w") as fh:
             json.dump(evidence, fh, indent=1, default=str)
